@@ -382,6 +382,26 @@ func judgeH1(r *hk.Run, cs *Case, res *Result) {
 		r.Count("coq:h1")
 		emitted = true
 	}
+	if cs.Kind == "h2" && len(cs.InfoCodes) > 0 && cs.Rounds[0].End == "fin" && cs.Method != "HEAD" {
+		obs := "OErr"
+		if !res.RespNil {
+			obs = fmt.Sprintf("(OResp %s true 0%%N)", hk.CoqZ(int64(res.Status)))
+		}
+		var cl []string
+		for _, c := range cs.InfoCodes {
+			cl = append(cl, hk.CoqZ(int64(c)))
+		}
+		r.Add(hk.Case{Coq: fmt.Sprintf("H2InfoCase %s %s", hk.CoqList(cl), obs), Desc: map[string]interface{}{"kind": "h2info", "case": cs, "observed": res}}, "h2info|"+key, true)
+		r.Count("coq:h2info")
+		emitted = true
+	}
+	if cs.Kind == "h1" && strings.HasPrefix(cs.Shape, "distinct-names") && !res.RespNil && len(cs.Rounds[0].Data) <= 16<<10 && !cs.Opts.DecodeAll {
+		// Content-Length and the X-N* fields as sent: nothing is added or removed on this path
+		r.Add(hk.Case{Coq: fmt.Sprintf("HdrCase %s 4096%%N %s %s %s", hk.CoqStr(cs.Method), hk.CoqBytes(cs.Rounds[0].Data), hk.CoqN(uint64(res.HdrKeys)), hk.CoqN(uint64(res.HdrVals))),
+			Desc: map[string]interface{}{"kind": "hdr", "case": cs, "names": res.HdrKeys, "values": res.HdrVals}}, "hdr|"+key, true)
+		r.Count("coq:hdr")
+		emitted = true
+	}
 	if cs.Kind == "h3" && cs.Model && len(cs.Rounds[0].Data) <= 32<<10 {
 		max := uint64(10 << 20)
 		if cs.Opts.MaxHeader > 0 {
